@@ -30,6 +30,7 @@ var allKinds = []string{
 	"fncap-", "fncap+", "fncap2-", "fncap2+", "fndrop-", "fndrop+", "capslot-", "capslot+", "capchain-", "capchain+",
 	"fwdslot-", "fwdslot+", "fwdinner-", "fwdinner+", "fwdafter-", "fwdafter+", "fwdtwice-", "fwdtwice+", "fwdign-", "fwdign+", "fwdpass-", "fwdpass+",
 	"fwdsame-", "fwdsame+", "fwdnop-", "fwdnop+", "fwd2-", "fwd2+",
+	"fwdnilslot-", "fwdnilslot+", "fwdnilafter-", "fwdnilafter+", "fwdniltwice-", "fwdniltwice+", "fwdnil2-", "fwdnil2+",
 }
 
 // Source shapes of a call site inside a GENERATED wrapper template (the
@@ -113,7 +114,8 @@ func callExpr(kind, v string) string {
 	}
 	switch base {
 	case "slot", "ign", "twice", "pass", "inner", "after", "fnget", "fnign", "fncap", "fncap2", "fndrop", "capslot", "capchain",
-		"fwdslot", "fwdinner", "fwdafter", "fwdtwice", "fwdign", "fwdpass", "fwdsame", "fwdnop", "fwd2":
+		"fwdslot", "fwdinner", "fwdafter", "fwdtwice", "fwdign", "fwdpass", "fwdsame", "fwdnop", "fwd2",
+		"fwdnilslot", "fwdnilafter", "fwdniltwice", "fwdnil2":
 		return fmt.Sprintf("%s(%s.M)", base, v)
 	case "once":
 		return fmt.Sprintf("oh(%s.H).Once()", v)
@@ -447,7 +449,35 @@ func fwd2(m string) templ.Component {
 	})
 }
 
+// fwdnil: hand-written layer that tells a generated callee "you get no
+// block" with templ.WithChildren(ctx, nil), without clearing ctx first
+// (generated callees treat a nil children component as empty).
+func fwdnil(m string, inner func(string) templ.Component) templ.Component {
+	return templ.ComponentFunc(func(ctx context.Context, w io.Writer) error {
+		if err := enter(); err != nil {
+			return err
+		}
+		return inner(m+".f").Render(templ.WithChildren(ctx, nil), w)
+	})
+}
+
+func fwdnilslot(m string) templ.Component  { return fwdnil(m, slot) }
+func fwdnilafter(m string) templ.Component { return fwdnil(m, after) }
+func fwdniltwice(m string) templ.Component { return fwdnil(m, twice) }
+
+// fwdnil2: a forwarder that hands its wrapped children to a fwdnil layer.
+func fwdnil2(m string) templ.Component {
+	return templ.ComponentFunc(func(ctx context.Context, w io.Writer) error {
+		if err := enter(); err != nil {
+			return err
+		}
+		children := templ.GetChildren(ctx)
+		return fwdnilslot(m+".g").Render(templ.WithChildren(ctx, wrap("w1", m, children)), w)
+	})
+}
+
 var fwdFuncs = map[string]func(string) templ.Component{
+	"fwdnilslot-": fwdnilslot, "fwdnilafter-": fwdnilafter, "fwdniltwice-": fwdniltwice, "fwdnil2-": fwdnil2,
 	"fwdslot-": fwdslot, "fwdinner-": fwdinner, "fwdafter-": fwdafter, "fwdtwice-": fwdtwice, "fwdign-": fwdign,
 	"fwdpass-": fwdpass, "fwdsame-": fwdsame, "fwdnop-": fwdnop, "fwd2-": fwd2,
 }
